@@ -74,9 +74,9 @@ func Parse(str string) (Selector, error) {
 				sel = append(sel, segment{str: tok, optional: opt, index: idx})
 
 			// explicit field, ["abcd"]
-			case strings.HasPrefix(lookup, "\"") && strings.HasSuffix(lookup, "\""):
+			case len(lookup) >= 2 && strings.HasPrefix(lookup, "\"") && strings.HasSuffix(lookup, "\""):
 				fieldName := lookup[1 : len(lookup)-1]
-				if strings.Contains(fieldName, ":") {
+				if fieldName == "" || strings.Contains(fieldName, ":") {
 					return nil, newParseError(fmt.Sprintf("invalid segment: %s", seg), str, col, tok)
 				}
 				sel = append(sel, segment{str: tok, optional: opt, field: fieldName})
@@ -166,7 +166,8 @@ func tokenize(str string) []string {
 		col++
 	}
 
-	if ofs < col && ctx != "\"" {
+	if ofs < col {
+		// an unterminated quote is kept in the last token, which Parse then rejects
 		toks = append(toks, str[ofs:col])
 	}
 
